@@ -19,9 +19,12 @@ import (
 	metav1 "k8s.io/apimachinery/pkg/apis/meta/v1"
 	"k8s.io/apimachinery/pkg/types"
 	ctrl "sigs.k8s.io/controller-runtime"
+	"sigs.k8s.io/controller-runtime/pkg/event"
+	"sigs.k8s.io/controller-runtime/pkg/reconcile"
 
 	bindv1alpha2 "github.com/NVIDIA/KAI-scheduler/pkg/apis/scheduling/v1alpha2"
 	"github.com/NVIDIA/KAI-scheduler/pkg/binder/binding/resourcereservation/group_mutex"
+	bindercontrollers "github.com/NVIDIA/KAI-scheduler/pkg/binder/controllers"
 )
 
 type C17Step struct {
@@ -245,17 +248,20 @@ func c17Body(s *C17Script, res *Result) {
 			}
 		case "complete":
 			if p := api.Pod(NS, st.Arg); p != nil && p.Spec.NodeName != "" && p.Status.Phase != corev1.PodSucceeded {
+				old := p
 				p = p.DeepCopy()
 				p.Status.Phase = corev1.PodSucceeded
 				api.UpdatePod(p)
-				c17PodEvent(b, p)
+				c17PodEvent(b, old, p, false)
 				res.Probes["pod_completed"]++
+				c17AfterConsumerGone(api, p, "completion", fail, res)
 			}
 		case "delete":
 			if p := api.Pod(NS, st.Arg); p != nil {
 				api.RemovePod(NS, st.Arg)
-				c17PodEvent(b, p)
+				c17PodEvent(b, nil, p, true)
 				res.Probes["pod_deleted"]++
+				c17AfterConsumerGone(api, p, "deletion", fail, res)
 			}
 		case "delete_br":
 			if br := getBR(api, st.Arg); br != nil {
@@ -322,6 +328,37 @@ func c17Body(s *C17Script, res *Result) {
 	res.Cycles = len(s.Steps)
 }
 
+// c17AfterConsumerGone: "... pod completions or deletions ... and the sync that follows them": when the pod that just
+// completed / was deleted was the last live consumer of a GPU group, the sync its event triggers must remove the
+// group's reservation pod; no global re-sync (binder restart) is needed for that.
+func c17AfterConsumerGone(api *SimAPI, gone *corev1.Pod, what string, fail func(rule, format string, args ...any), res *Result) {
+	synctest.Wait()
+	for _, grp := range PodGroups(gone) {
+		liveConsumers := 0
+		for _, p := range api.Pods() {
+			if IsReservationPod(p) || p.DeletionTimestamp != nil || p.Name == gone.Name {
+				continue
+			}
+			if p.Status.Phase == corev1.PodPending || p.Status.Phase == corev1.PodRunning {
+				for _, g := range PodGroups(p) {
+					if g == grp {
+						liveConsumers++
+					}
+				}
+			}
+		}
+		if liveConsumers > 0 {
+			continue
+		}
+		res.Probes["c17_last_consumer_gone"]++
+		for _, p := range api.Pods() {
+			if IsReservationPod(p) && p.Labels[GPUGroupLabel] == grp && p.DeletionTimestamp == nil {
+				fail("reservation_outlives_last_consumer", "after the %s of %s, the last live pod of GPU group %s, and the sync its event triggers, reservation pod %s still exists", what, gone.Name, grp, p.Name)
+			}
+		}
+	}
+}
+
 // c17RequestGroups: for a bound pod the order of devices is the order of the request's groups.
 func c17RequestGroups(api *SimAPI, p *corev1.Pod, fallback []string) []string {
 	if br := getBR(api, p.Name); br != nil && len(br.Spec.SelectedGPUGroups) > 0 {
@@ -330,23 +367,32 @@ func c17RequestGroups(api *SimAPI, p *corev1.Pod, fallback []string) []string {
 	return fallback
 }
 
-func c17PodEvent(b *BinderActor, p *corev1.Pod) {
-	// what the binder's pod controller does on deletion / completion events
-	grp, ok := p.Labels[GPUGroupLabel]
-	if !ok {
+// c17PodEvent delivers a pod update / delete event to the binder's real pod controller event handlers (hook H7).
+func c17PodEvent(b *BinderActor, old, p *corev1.Pod, deleted bool) {
+	pr := &bindercontrollers.PodReconciler{Client: b.Client, Scheme: Scheme(), ResourceReservation: b.RRS, SchedulerName: SchedulerName}
+	h := pr.EventHandlersForSim()
+	q := nopQueue{}
+	if deleted {
+		h.DeleteFunc(context.Background(), event.DeleteEvent{Object: p}, q)
 		return
 	}
-	groups := []string{grp}
-	for k, v := range p.Labels {
-		if strings.HasPrefix(k, GPUGroupPrefix) {
-			groups = append(groups, v)
-		}
-	}
-	sort.Strings(groups)
-	for _, g := range groups {
-		_ = b.RRS.SyncForGpuGroup(context.Background(), g)
-	}
+	h.UpdateFunc(context.Background(), event.UpdateEvent{ObjectOld: old, ObjectNew: p}, q)
 }
+
+// nopQueue: the pod controller's Reconcile does nothing; only the handlers' side effects matter.
+type nopQueue struct{}
+
+func (nopQueue) Add(reconcile.Request)                          {}
+func (nopQueue) Len() int                                       { return 0 }
+func (nopQueue) Get() (reconcile.Request, bool)                 { return reconcile.Request{}, true }
+func (nopQueue) Done(reconcile.Request)                         {}
+func (nopQueue) ShutDown()                                      {}
+func (nopQueue) ShutDownWithDrain()                             {}
+func (nopQueue) ShuttingDown() bool                             { return false }
+func (nopQueue) AddAfter(reconcile.Request, time.Duration)      {}
+func (nopQueue) AddRateLimited(reconcile.Request)               {}
+func (nopQueue) Forget(reconcile.Request)                       {}
+func (nopQueue) NumRequeues(reconcile.Request) int              { return 0 }
 
 var (
 	curRecMu sync.Mutex
